@@ -10,12 +10,20 @@ import (
 // independent leaf branches, processes without out-ports, more tasks per process than buffer slots.
 
 type c05Case struct {
-	Dag Dag `json:"dag"`
-	Buf int `json:"bufsize"`
+	Dag   Dag      `json:"dag"`
+	Buf   int      `json:"bufsize"`
+	RunTo []string `json:"runto,omitempty"` // RunTo these processes instead of Run (only their upstream closure runs)
 }
 
 func runC05(ctx *Ctx, c c05Case) {
 	d, pre := c.Dag.desc()
+	inRun := func(name string) bool { return true }
+	if len(c.RunTo) > 0 {
+		d.RunTo, d.RunToKind = c.RunTo, "name"
+		cl := c.Dag.closure(c.RunTo)
+		inRun = func(name string) bool { return cl[name] }
+		ctx.Res.Count("RunTo")
+	}
 	rr := RunWorkflow(d, RunOpts{Pre: pre, Timeout: 25e9, Env: []string{fmt.Sprintf("SCIPIPE_BUFSIZE=%d", c.Buf), "VERIF_LINGER_MS=200"}})
 	defer os.RemoveAll(rr.Dir)
 	counts := c.Dag.counts()
@@ -30,7 +38,7 @@ func runC05(ctx *Ctx, c c05Case) {
 		}
 	}
 	for _, n := range c.Dag.Nodes {
-		if n.Kind == "proc" {
+		if n.Kind == "proc" && inRun(n.Name) {
 			total += counts[n.Name]
 			if counts[n.Name] > maxTasks {
 				maxTasks = counts[n.Name]
@@ -65,7 +73,9 @@ func runC05(ctx *Ctx, c c05Case) {
 	if noOut {
 		ctx.Res.Count("no-out-port-proc")
 	}
-	netVerdict(ctx, c, rr)
+	if len(c.RunTo) == 0 {
+		netVerdict(ctx, c, rr)
+	}
 	if rr.Exit == -2 {
 		class := "c05.hang"
 		if c.Buf == 0 {
@@ -138,7 +148,7 @@ func runC05(ctx *Ctx, c c05Case) {
 	}
 	// expected output files exist at the instant of return
 	for _, n := range c.Dag.Nodes {
-		if n.Kind == "proc" && !n.NoOut {
+		if n.Kind == "proc" && !n.NoOut && inRun(n.Name) {
 			have := 0
 			for _, s := range rr.Snap {
 				if strings.HasPrefix(s, "f:"+n.Name+".") && strings.HasSuffix(s, ".o") {
@@ -180,6 +190,13 @@ func checkC05(ctx *Ctx) {
 		{Name: "pc0", Kind: "pcomb", PIn: "ps0"}, {Name: "P0", Kind: "proc", Ins: []string{"s0"}, PIn: "pc0"}, {Name: "P1", Kind: "proc", Ins: []string{"P0"}, PIn: "ps0"}}}})
 	cases = append(cases, c05Case{Buf: 1, Dag: Dag{Max: 4, Nodes: []DNode{{Name: "s0", Kind: "src", Items: 5}, {Name: "s1", Kind: "src", Items: 1},
 		{Name: "P0", Kind: "proc", Ins: []string{"s0"}}, {Name: "P2", Kind: "proc", Ins: []string{"P0", "P0"}}, {Name: "P3", Kind: "proc", Ins: []string{"P0", "s1"}}}}})
+	// RunTo a process whose parameter port is fed by a component with an upstream of its own, and whose output
+	// another process (not run) would consume
+	cases = append(cases, c05Case{Buf: 2, RunTo: []string{"P1"}, Dag: Dag{Max: 3, Nodes: []DNode{{Name: "s0", Kind: "src", Items: 3},
+		{Name: "ps0", Kind: "psrc", PVals: []string{"v0", "v1", "v2"}}, {Name: "pc0", Kind: "pcomb", PIn: "ps0"},
+		{Name: "P0", Kind: "proc", Ins: []string{"s0"}}, {Name: "P1", Kind: "proc", Ins: []string{"P0"}, PIn: "pc0"}, {Name: "P2", Kind: "proc", Ins: []string{"P1"}}}}})
+	cases = append(cases, c05Case{Buf: 1, RunTo: []string{"P0", "P2"}, Dag: Dag{Max: 2, Nodes: []DNode{{Name: "s0", Kind: "src", Items: 4}, {Name: "s1", Kind: "src", Items: 4},
+		{Name: "P0", Kind: "proc", Ins: []string{"s0"}}, {Name: "P1", Kind: "proc", Ins: []string{"P0"}}, {Name: "P2", Kind: "proc", Ins: []string{"s1"}}, {Name: "P3", Kind: "proc", Ins: []string{"P2", "P1"}}}}})
 	// a file stream and a parameter stream both end in the sink: Run must wait for the longer-running one
 	cases = append(cases, c05Case{Buf: 2, Dag: Dag{Max: 2, Nodes: []DNode{{Name: "s0", Kind: "src", Items: 4},
 		{Name: "P0", Kind: "proc", Ins: []string{"s0"}}, {Name: "ps0", Kind: "psrc", PVals: []string{"v0", "v1"}}}}})
